@@ -17,11 +17,26 @@
 //!     v must be the value the model returns for SOME reading in [t0, t1].
 //!     pace: 0 tight (the generator runs ahead of the clock: v = last + 1 exactly),
 //!     1 random spins of 0..40 us, 2 occasional 1 ms sleeps.
+//!   E <serial> <gen 0|1> <requests>
+//!       | <kind>.<explicit>.<observed>,... <consults> <frames>
+//!     end-to-end: a real Session (with a MonotonicTimestampGenerator wrapped in a call counter when
+//!     gen = 1, without any generator when gen = 0) sends <requests> concurrent unprepared queries
+//!     (kind q), prepared executes (x) and batches (b) to a one-node mocknode; a seeded part of them
+//!     carries an explicit statement timestamp (boundary values included).  Per request, in request
+//!     order: the explicit timestamp ('n' = none) and the timestamp field of the frame the mock
+//!     received ('n' = flag not set, 'm' = no frame seen, 'd' = more than one frame).  <consults> =
+//!     number of next_timestamp calls during the window, <frames> = number of QUERY/EXECUTE/BATCH
+//!     frames the mock received during the window.
 //! Encoding of integer lists: the first token and every token starting with '=' are absolute
 //! signed hex values; other tokens are signed hex deltas to the previous value of the same
 //! stream (for B: previous t0 / v / t1 respectively).
 use scylla::policies::timestamp_generator::{MonotonicTimestampGenerator, TimestampGenerator};
-use std::sync::Barrier;
+use scylla::client::session_builder::SessionBuilder;
+use scylla::statement::batch::Batch;
+use scylla::statement::Statement;
+use std::sync::atomic::{AtomicU64, Ordering};
+use std::sync::{Arc, Barrier};
+use vh::mocknode::{self as mock, wire, op, Ev};
 use std::time::{Duration, Instant, SystemTime, UNIX_EPOCH};
 use vh::*;
 
@@ -177,6 +192,146 @@ fn run_b(warn: bool, calls: usize, pace: u64, seed: u64) -> String {
     o
 }
 
+/// the real generator behind a call counter (the trait is public API)
+struct CountingGen {
+    inner: MonotonicTimestampGenerator,
+    calls: AtomicU64,
+}
+impl TimestampGenerator for CountingGen {
+    fn next_timestamp(&self) -> i64 {
+        self.calls.fetch_add(1, Ordering::SeqCst);
+        self.inner.next_timestamp()
+    }
+}
+
+fn gen_explicit(r: &mut Rng) -> i64 {
+    match r.below(6) {
+        0 => *r.pick(&[0i64, 1, -1, i64::MAX, i64::MIN, i64::MAX - 1, i64::MIN + 1]),
+        1 => now_us() + r.below(2000) as i64 - 1000, // close to what the generator hands out
+        2 => r.below(1000) as i64,
+        _ => r.i64(),
+    }
+}
+
+async fn run_e(serial: u64, with_gen: bool, nreq: usize) -> Result<String, String> {
+    let table = mock::TableDef::new("t", &[("pk", mock::CqlType::Int)], &[("ck", mock::CqlType::Int)], &[("v", mock::CqlType::Text)]);
+    let spec = mock::ClusterSpec::uniform("c18", &[("dc1", 1)], 1, 4, 2)
+        .with_keyspace(mock::KeyspaceDef::simple("ks", 1).with_table(table.clone()));
+    let cluster = mock::MockCluster::start(spec).await.map_err(|e| format!("mock start: {e}"))?;
+    let insert = "INSERT INTO ks.t (pk, ck, v) VALUES (?, ?, ?)";
+    cluster.on_prepare(insert, table.prepared("ks", &["pk", "ck", "v"], &[]));
+    let counting = Arc::new(CountingGen { inner: MonotonicTimestampGenerator::new(), calls: AtomicU64::new(0) });
+    let mut b = SessionBuilder::new().known_node_addr(cluster.contact_point(0)).connection_timeout(Duration::from_secs(5));
+    if with_gen {
+        b = b.timestamp_generator(counting.clone());
+    }
+    let session = Arc::new(b.build().await.map_err(|e| format!("session: {e}"))?);
+    let prepared = session.prepare(insert).await.map_err(|e| format!("prepare: {e}"))?;
+    let prepared_id = cluster.prepared_id(insert);
+    // let the pools settle, then open the observation window
+    tokio::time::sleep(Duration::from_millis(60)).await;
+    cluster.drain_trace();
+    let calls0 = counting.calls.load(Ordering::SeqCst);
+    let mut r = Rng::new(serial);
+    let plan: Vec<(char, Option<i64>)> = (0..nreq)
+        .map(|i| (['q', 'x', 'b'][i % 3], if r.chance(2, 5) { Some(gen_explicit(&mut r)) } else { None }))
+        .collect();
+    let mut tasks = Vec::new();
+    for (i, (kind, explicit)) in plan.iter().cloned().enumerate() {
+        let session = session.clone();
+        let mut prepared = prepared.clone();
+        tasks.push(tokio::spawn(async move {
+            match kind {
+                'q' => {
+                    let mut st = Statement::new(format!("INSERT INTO ks.t (pk, ck, v) VALUES ({}, 0, 'q')", i));
+                    st.set_timestamp(explicit);
+                    session.query_unpaged(st, ()).await.map(|_| ()).map_err(|e| e.to_string())
+                }
+                'x' => {
+                    prepared.set_timestamp(explicit);
+                    session.execute_unpaged(&prepared, (i as i32, 1i32, "x")).await.map(|_| ()).map_err(|e| e.to_string())
+                }
+                _ => {
+                    let mut batch = Batch::default();
+                    batch.append_statement(Statement::new(format!("INSERT INTO ks.t (pk, ck, v) VALUES ({}, 2, 'b')", i)));
+                    batch.append_statement(Statement::new("INSERT INTO ks.t (pk, ck, v) VALUES (0, 3, 'b2')"));
+                    batch.set_timestamp(explicit);
+                    session.batch(&batch, ((), ())).await.map(|_| ()).map_err(|e| e.to_string())
+                }
+            }
+        }));
+    }
+    for t in tasks {
+        t.await.map_err(|e| format!("join: {e}"))?.map_err(|e| format!("request: {e}"))?;
+    }
+    let consults = counting.calls.load(Ordering::SeqCst) - calls0;
+    let trace = cluster.drain_trace();
+    // observed[i] = timestamps of the frames carrying request i
+    let mut observed: Vec<Vec<Option<i64>>> = vec![vec![]; nreq];
+    let mut frames = 0u64;
+    let id_of_text = |text: &str| -> Option<usize> {
+        let rest = text.strip_prefix("INSERT INTO ks.t (pk, ck, v) VALUES (")?;
+        rest.split(',').next()?.trim().parse::<usize>().ok()
+    };
+    for e in &trace {
+        if let Ev::In { opcode, body, .. } = &e.ev {
+            match *opcode {
+                op::QUERY => {
+                    frames += 1;
+                    let q = wire::decode_query(body).map_err(|e| format!("decode QUERY: {e:?}"))?;
+                    if let Some(i) = id_of_text(&q.text) {
+                        if i < nreq {
+                            observed[i].push(q.params.timestamp);
+                        }
+                    }
+                }
+                op::EXECUTE => {
+                    frames += 1;
+                    let x = wire::decode_execute(body, false).map_err(|e| format!("decode EXECUTE: {e:?}"))?;
+                    if x.id == prepared_id {
+                        if let Some(b) = x.params.values.first().and_then(|v| v.as_bytes()) {
+                            if b.len() == 4 {
+                                let i = i32::from_be_bytes([b[0], b[1], b[2], b[3]]) as usize;
+                                if i < nreq {
+                                    observed[i].push(x.params.timestamp);
+                                }
+                            }
+                        }
+                    }
+                }
+                op::BATCH => {
+                    frames += 1;
+                    let bt = wire::decode_batch(body).map_err(|e| format!("decode BATCH: {e:?}"))?;
+                    if let Some(wire::BatchStmt::Query { text, .. }) = bt.statements.first() {
+                        if let Some(i) = id_of_text(text) {
+                            if i < nreq {
+                                observed[i].push(bt.timestamp);
+                            }
+                        }
+                    }
+                }
+                _ => {}
+            }
+        }
+    }
+    let opt = |o: Option<i64>| o.map(|v| hex_i(v as i128)).unwrap_or_else(|| "n".into());
+    let toks: Vec<String> = plan
+        .iter()
+        .zip(&observed)
+        .map(|((kind, explicit), obs)| {
+            let o = match obs.len() {
+                0 => "m".to_string(),
+                1 => opt(obs[0]),
+                _ => "d".to_string(),
+            };
+            format!("{}.{}.{}", kind, opt(*explicit), o)
+        })
+        .collect();
+    drop(session);
+    cluster.shutdown();
+    Ok(format!("{} {:x} {:x}", if toks.is_empty() { "-".to_string() } else { toks.join(",") }, consults, frames))
+}
+
 fn run_case(case: &str) -> String {
     let f: Vec<&str> = case.split_whitespace().collect();
     let h = |s: &str| u64::from_str_radix(s, 16).unwrap();
@@ -194,6 +349,18 @@ fn run_case(case: &str) -> String {
                 return "error bad-parameters".into();
             }
             run_b(warn, calls, pace, serial)
+        }
+        "E" if f.len() == 4 => {
+            let (serial, with_gen, nreq) = (h(f[1]), h(f[2]) != 0, h(f[3]) as usize);
+            if nreq > 100_000 {
+                return "error bad-parameters".into();
+            }
+            let rt = tokio::runtime::Builder::new_multi_thread().worker_threads(4).enable_all().build().unwrap();
+            let r = rt.block_on(run_e(serial, with_gen, nreq));
+            match r {
+                Ok(s) => s,
+                Err(e) => format!("error e2e {}", e.replace(' ', "_")),
+            }
         }
         _ => "error unknown-case".into(),
     }
@@ -237,6 +404,13 @@ fn main() {
         serial += 1;
         emit(&mut out, format!("B {:x} {:x} {:x} {:x}", serial, pace & 1, calls, pace));
         budget -= calls as i64;
+    }
+    // end-to-end part: which timestamp goes into the frames
+    let e_cases = if thorough { 60 } else { 12 };
+    for k in 0..e_cases {
+        serial += 1;
+        let nreq = if k % 4 == 3 { 900 } else { r.range(30, 400) };
+        emit(&mut out, format!("E {:x} {:x} {:x}", serial, if k % 3 == 2 { 0 } else { 1 }, nreq));
     }
     // seeded part
     while budget > 0 {
